@@ -58,6 +58,9 @@ MSG_RT = [
     H(MSGS, 'h_rt_update_fee', 'msgs', 'rt_update_fee', ['[u8;32]', 'u32'], 'UpdateFee survives encode -> decode unchanged (real impl_writeable_msg! codec)', ['UpdateFee::write', 'UpdateFee::read_from_fixed_length_buffer']),
     H(MSGS, 'h_rt_update_fail_malformed', 'msgs', 'rt_update_fail_malformed', ['[u8;32]', 'u64', '[u8;32]', 'u16'], 'UpdateFailMalformedHTLC survives encode -> decode unchanged', ['UpdateFailMalformedHTLC::write', 'UpdateFailMalformedHTLC::read_from_fixed_length_buffer']),
     H(MSGS, 'h_rt_stfu', 'msgs', 'rt_stfu', ['[u8;32]', 'bool'], 'Stfu survives encode -> decode unchanged', ['Stfu::write', 'Stfu::read_from_fixed_length_buffer']),
+    H(MSGS, 'h_rt_tx_remove_input', 'msgs', 'rt_tx_remove_input', ['[u8;32]', 'u64'], 'TxRemoveInput survives encode -> decode unchanged', ['TxRemoveInput::write', 'TxRemoveInput::read_from_fixed_length_buffer']),
+    H(MSGS, 'h_rt_tx_complete', 'msgs', 'rt_tx_complete', ['[u8;32]'], 'TxComplete survives encode -> decode unchanged', ['TxComplete::write', 'TxComplete::read_from_fixed_length_buffer']),
+    H(MSGS, 'h_rt_gossip_timestamp_filter', 'msgs', 'rt_gossip_timestamp_filter', ['[u8;32]', 'u32', 'u32'], 'GossipTimestampFilter survives encode -> decode unchanged', ['GossipTimestampFilter::write', 'GossipTimestampFilter::read_from_fixed_length_buffer']),
     H(MSGS, 'h_canon_update_fee', 'msgs', 'canon_update_fee', ['[u8;36]'], 'every 36-byte buffer decodes as UpdateFee and re-encodes to itself (decoding total on the fixed part, canonical)', ['UpdateFee::read_from_fixed_length_buffer']),
     H(WIRE, 'h_is_even_unknown', 'wire', 'is_even_unknown', ['u16'], 'a message type must be understood ("even") exactly when its low bit is clear', ['wire::Message::is_even', 'wire::Message::type_id']),
     H(MSGS, 'hb_rt_ping', 'msgs', 'rt_ping', ['u16', 'u16'], 'Ping survives encode -> decode', ['Ping::write', 'Ping::read_from_fixed_length_buffer'], bounded='payload length <= 3 bytes', thorough=True),
